@@ -487,6 +487,9 @@ class NetRun:
                 self.add(vio("rejected-line-had-effect",
                              {"line": text, "tier": tier, "out": out[:5], "callbacks": [c[0] for c in cbs][:5],
                               "state_changed": snap_after != snap_before}, tier=tier))
+            if out:
+                # C05's reading of the same event: "everything else with silence"
+                self.add(vio("reply-spurious", {"line": text, "got": [o[0] for o in out][:5], "model_kind": "rejected-line"}, model_kind="rejected-line"))
             self.trace.append(("rej", text[:60]))
             return ok
         self.probe("accepted_lines")
@@ -628,6 +631,8 @@ class NetRun:
                 if seg or cbs:
                     self.add(vio("rejected-line-had-effect", {"line": text, "tier": tier, "out": seg[:5], "callbacks": [c[0] for c in cbs][:5],
                                                               "in_chunk": True}, tier=tier))
+                if seg:
+                    self.add(vio("reply-spurious", {"line": text, "got": [o[0] for o in seg][:5], "model_kind": "rejected-line"}, model_kind="rejected-line"))
                 self.trace.append(("rej", text[:60]))
                 continue
             self.probe("accepted_lines")
@@ -1375,6 +1380,8 @@ class NetRun:
                 self.op_linkdown()
             elif kind == "stop_from_callback":
                 # a state-changing line; the application calls stop() from inside the event callback it triggers
+                known = sorted(n for n in self.model.nodes if isinstance(n, int) and 0 < n < 255)
+                op = [op[0], op[1].replace("{n}", str(known[0] if known else 1))]
                 if self.flavour in ("serial", "tcp", "mqtt") and not self.cfg.get("no_callback"):
                     self.stop_from_callback = True
                     if self.broker is not None:
@@ -1395,6 +1402,8 @@ class NetRun:
             elif kind == "stop_in_callback":
                 # a state-changing line whose event callback is slow; the application stops the gateway while the poll
                 # thread is still inside that callback (threaded device flavours; elsewhere: the line, then the stop)
+                known = sorted(n for n in self.model.nodes if isinstance(n, int) and 0 < n < 255)
+                op = [op[0], op[1].replace("{n}", str(known[0] if known else 1))]
                 if self.flavour in ("serial", "tcp") and not self.cfg.get("no_callback") and world.device.current() is not None:
                     tier, fields = classify(op[1], self.version)
                     self.slow_callback = 3.5
